@@ -4,6 +4,7 @@
 #include "../common/isal.hpp"
 #include "../common/json.hpp"
 #include "../common/pbt.hpp"
+#include "../common/periodic.hpp"
 #include "../ref/rolling_table_frozen.hpp"
 
 typedef int (*rh_init_fn)(void *st, uint32_t w);
@@ -30,6 +31,7 @@ struct Case {
         uint32_t stream_len = 0;
         std::vector<uint32_t> maxlens; // cycled
         int place = 1;                // START-flush by default: buffer[-1] is unmapped
+        int giant = 0;                // 1: the stream is the periodic 5 GiB read-only mapping, max_len values of 2^31..2^32-1
         // mask_gen side check
         uint32_t mean = 0, shift = 0;
 };
@@ -37,7 +39,7 @@ static J to_json(const Case &c)
 {
         J j = J::obj();
         j.set("api", c.api).set("scan", c.scan).set("w", c.w).set("mask", c.mask).set("trigger", c.trigger).set("seed", (unsigned long long) c.seed);
-        j.set("stream_len", c.stream_len).set("place", c.place).set("mean", c.mean).set("shift", c.shift);
+        j.set("stream_len", c.stream_len).set("place", c.place).set("mean", c.mean).set("shift", c.shift).set("giant", c.giant);
         J a = J::arr();
         for (auto m : c.maxlens) a.push(J(m));
         j.set("maxlens", a);
@@ -47,7 +49,7 @@ static Case from_json(const J &j)
 {
         Case c;
         c.api = j.num("api", 0); c.scan = j.str("scan", "dispatch"); c.w = j.unum("w", 16); c.mask = j.unum("mask", 0); c.trigger = j.unum("trigger", 0);
-        c.seed = j.unum("seed", 1); c.stream_len = j.unum("stream_len", 0); c.place = j.num("place", 1); c.mean = j.unum("mean", 0); c.shift = j.unum("shift", 0);
+        c.seed = j.unum("seed", 1); c.stream_len = j.unum("stream_len", 0); c.place = j.num("place", 1); c.mean = j.unum("mean", 0); c.shift = j.unum("shift", 0); c.giant = j.num("giant", 0);
         for (auto &m : j.at("maxlens").a) c.maxlens.push_back((uint32_t) m.unum());
         return c;
 }
@@ -74,6 +76,7 @@ static bool run(const Case &c, pbt::Ctx &ctx)
         void *f_mg = isal::sym(pfx + "rolling_hashx_mask_gen");
         if (!f_init || !f_reset || !f_run) { ctx.label("absent-entry"); return true; }
 
+        if (!c.giant && c.stream_len > (1u << 26)) { ctx.label("shrink artefact (giant flag dropped)"); return true; }
         guard::Arena A;
         guard::FaultInfo fi;
         // ---- mask_gen side check
@@ -90,7 +93,8 @@ static bool run(const Case &c, pbt::Ctx &ctx)
                         return false;
         }
         uint8_t *st = A.alloc("state", sizeof(isal_rh_state2), 8, guard::END, (int) (c.seed & 0xff));
-        std::vector<uint8_t> init = pbt::expandv(c.seed, c.w), stream = pbt::expandv(c.seed + 1, c.stream_len);
+        std::vector<uint8_t> init = pbt::expandv(c.seed, c.w), stream = pbt::expandv(c.seed + 1, c.giant ? 0 : c.stream_len);
+        const uint64_t giant_cap = 3u << 20; // the mapping repeats every 1 MiB: no hit in 3 MiB means no hit at all
         uint8_t *ib = A.alloc("init_bytes", c.w, 1, guard::END);
         memcpy(ib, init.data(), c.w);
         A.set_readonly(ib);
@@ -123,19 +127,23 @@ static bool run(const Case &c, pbt::Ctx &ctx)
         int hits = 0;
         uint32_t *offp = (uint32_t *) A.alloc("offset-out", 4, 4, guard::END, 0x2e);
         int *matchp = (int *) A.alloc("match-out", 4, 4, guard::END, 0x3e);
-        while (call < 400) {
-                uint32_t remaining = c.stream_len - pos;
+        while (call < (c.giant ? 6u : 400u)) {
+                uint32_t remaining = c.giant ? 0xffffffffu : c.stream_len - pos;
                 uint32_t ml = c.maxlens.empty() ? remaining : c.maxlens[call % c.maxlens.size()];
                 if (ml > remaining) ml = remaining;
-                uint8_t *buf = A.alloc("buffer", ml, 1, (guard::Place) c.place);
-                memcpy(buf, stream.data() + pos, ml);
-                A.set_readonly(buf);
+                uint8_t *buf = c.giant ? periodic::stream() + pos : A.alloc("buffer", ml, 1, (guard::Place) c.place);
+                if (!c.giant) {
+                        memcpy(buf, stream.data() + pos, ml);
+                        A.set_readonly(buf);
+                }
                 // reference scan
                 uint32_t want_off = ml;
                 int want_match = ISAL_FINGERPRINT_RET_MAX;
                 std::vector<uint8_t> wwin(win);
                 uint64_t want_hash = window_hash(wwin.data(), c.w);
+                bool capped = false;
                 for (uint32_t i = 0; i < ml; i++) {
+                        if (c.giant && i >= giant_cap) { capped = true; break; }
                         wwin.erase(wwin.begin());
                         wwin.push_back(buf[i]);
                         want_hash = window_hash(wwin.data(), c.w);
@@ -145,6 +153,8 @@ static bool run(const Case &c, pbt::Ctx &ctx)
                                 break;
                         }
                 }
+                if (capped) { ctx.label("giant call without a hit (skipped)"); break; }
+                if (c.giant && ml >= 0x7fffffffu) nt = true;
                 if (want_match == ISAL_FINGERPRINT_RET_HIT) {
                         hits++;
                         if (want_off <= c.w || want_off == ml) nt = true;
@@ -176,12 +186,13 @@ static bool run(const Case &c, pbt::Ctx &ctx)
                         if (failx("state-hash", std::string("state->hash is not the hash of the last w bytes; ") + d)) return false;
                 std::string cn = A.check_canaries();
                 if (!cn.empty() && failx("canary", cn)) return false;
-                A.release(buf);
+                if (!c.giant) A.release(buf);
                 win = wwin;
                 pos += want_off;
                 call++;
-                if (pos >= c.stream_len) break;
+                if (!c.giant && pos >= c.stream_len) break;
         }
+        if (c.giant) ctx.label("giant max_len (2^31..2^32-1)");
         ctx.label("scan=" + c.scan);
         ctx.label("hits", hits);
         ctx.label("calls", call);
@@ -202,6 +213,25 @@ int main(int argc, char **argv)
         P.gen = [](pbt::Ctx &ctx) {
                 using namespace pbt;
                 Case c;
+                static long case_no = 0;
+                if (case_no < ctx.optnum("giants", 0)) {
+                        // one run call told that 2^31 .. 2^32-1 bytes are available (they are: a periodic read-only mapping); a sparse enough
+                        // mask still hits within the first KiBs, so the call is cheap - unless the scan mishandles the large count
+                        static const char *scans[] = { "base", "00", "04", "dispatch" };
+                        c.giant = 1;
+                        c.scan = g_dispatched ? scans[(ctx.optnum("worker", 0) + case_no) % 4] : "dispatch";
+                        case_no++;
+                        c.api = coin(1, 4);
+                        c.w = rng<uint32_t>(1, 48);
+                        c.seed = rng64(1, UINT64_MAX - 8);
+                        c.stream_len = 0xffffffffu;
+                        int bits = rng<int>(0, 10);
+                        for (int i = 0; i < bits; i++) c.mask |= 1u << rng<int>(0, 31);
+                        c.trigger = coin(1, 3) ? 0 : (rng<uint32_t>(0, 0xffffffffu) & c.mask);
+                        int k = rng<int>(1, 3);
+                        for (int i = 0; i < k; i++) c.maxlens.push_back(coin(1, 2) ? pick<uint32_t>({ 0x7fffffffu, 0x80000000u, 0x80000001u, 0xffffffffu }) : rng<uint32_t>(0x7ffffff0u, 0xffffffffu));
+                        return c;
+                }
                 c.api = coin(1, 4);
                 c.scan = g_dispatched ? pick<std::string>({ "base", "00", "04", "dispatch" }) : std::string("dispatch");
                 c.w = weighted({ 1, 6, 1 }) == 0 ? rng<uint32_t>(1, 3) : rng<uint32_t>(1, 48);
